@@ -95,7 +95,6 @@ func checkC01(c *Ctx) {
 	c.Clause("every path of ServeHTTP on which the proxy call panics (http.ErrAbortHandler after a mid-body backend failure) leaves by that panic: a truncated response is never completed as a clean one")
 	c.Clause("the status-capturing wrapper forwards every status (1xx and final), keeps no per-response state from an earlier request, does not retain the caller's slice in Write, and restores the headers set before proxying after httputil empties the map for an interim response")
 	c.Clause("copy buffers handed to the reverse proxy are exclusive to one copy (a pool that hands out only what was put back, or fresh slices)")
-	c.Clause("every reverse proxy is given a non-zero FlushInterval before it is handed on: with the default (0) httputil flushes at once only for event streams and responses of unknown length, and the flushed part of a response with a Content-Length waits for the end of the response")
 	c.NotDecided("what net/http and httputil do with the bytes (hop-by-hop headers, framing, 1xx, HEAD); path/query joining for backend base paths; timing of flushes")
 
 	ws := c.wrappers()
@@ -218,7 +217,6 @@ func checkC01(c *Ctx) {
 		c.Fail("proxy-not-customised", "httputil.ReverseProxy", "-", bad[0], bad...)
 	}
 	c.Floor("proxy-not-customised", len(created), 1, "NewSingleHostReverseProxy call sites")
-	c.proxyFlushesThrough()
 	c.copyBuffersExclusive()
 	c.abortPropagates()
 	c.presetHeadersSurviveInterim()
@@ -1592,96 +1590,4 @@ func (c *Ctx) poolNewShared(poolAddr ssa.Value, depth int) string {
 	// nil, which the caller has to replace by an allocation of its own)
 	_ = found
 	return ""
-}
-
-// proxyFlushesThrough: httputil.ReverseProxy with FlushInterval 0 flushes immediately only for
-// text/event-stream and for responses of unknown length (chunked); what a backend flushes of a
-// response that declares its length stays in the server's write buffer until 4 KiB have accumulated or
-// the response ends.  "Bytes the backend flushes before it finishes reach the client without waiting
-// for the response to end" therefore needs a non-zero FlushInterval (negative: flush after every
-// write) on every proxy, assigned before the proxy leaves the function that creates it.
-func (c *Ctx) proxyFlushesThrough() {
-	p := c.P
-	n := 0
-	for _, fn := range p.Funcs {
-		if !p.InScope(fn) {
-			continue
-		}
-		instrsOf(fn, func(in ssa.Instruction) {
-			call, ok := in.(*ssa.Call)
-			if !ok || CalleeName(call) != "net/http/httputil.NewSingleHostReverseProxy" {
-				return
-			}
-			n++
-			construct := p.FuncKey(fn) + "/NewSingleHostReverseProxy"
-			if call.Referrers() == nil {
-				return
-			}
-			var setAt ssa.Instruction
-			why := "FlushInterval is never assigned (default 0: flushed bytes of a response with a Content-Length wait for the end of the response)"
-			for _, r := range *call.Referrers() {
-				fa, isFA := r.(*ssa.FieldAddr)
-				if !isFA || fa.Referrers() == nil {
-					continue
-				}
-				if fr, ok := fieldRefOf(fa); !ok || fr.Name != "FlushInterval" {
-					continue
-				}
-				for _, u := range *fa.Referrers() {
-					st, isSt := u.(*ssa.Store)
-					if !isSt || st.Addr != fa {
-						continue
-					}
-					k, isConst := stripConv(st.Val).(*ssa.Const)
-					if !isConst {
-						why = "undecided: FlushInterval is assigned a value that is not a constant"
-						continue
-					}
-					if v := k.Int64(); v == 0 {
-						why = "FlushInterval is assigned 0"
-					} else if v > int64(1000000000) {
-						why = "FlushInterval is longer than a second"
-					} else {
-						setAt = st
-					}
-				}
-			}
-			if setAt == nil {
-				if strings.HasPrefix(why, "undecided:") {
-					c.Undecided("proxy-flushes-through", construct, p.InstrPos(call), why)
-				} else {
-					c.Fail("proxy-flushes-through", construct, p.InstrPos(call), why)
-				}
-				return
-			}
-			// … before the proxy leaves the function: stored into another object or returned
-			for _, r := range *call.Referrers() {
-				escapes := false
-				switch x := r.(type) {
-				case *ssa.Store:
-					escapes = x.Val == call
-				case *ssa.Return:
-					escapes = true
-				}
-				if escapes && !(setAt.Block() == r.Block() && instrBefore(setAt, r) || setAt.Block() != r.Block() && setAt.Block().Dominates(r.Block())) {
-					c.Fail("proxy-flushes-through", construct, p.InstrPos(r), "the proxy is handed on on a path that has not assigned FlushInterval")
-					return
-				}
-			}
-			c.Pass("proxy-flushes-through", construct, p.InstrPos(setAt), "FlushInterval is set to a non-zero constant before the proxy is stored or returned")
-		})
-	}
-	c.Floor("proxy-flushes-through", n, 1, "NewSingleHostReverseProxy call sites")
-}
-
-func instrBefore(a, b ssa.Instruction) bool {
-	for _, in := range a.Block().Instrs {
-		if in == a {
-			return true
-		}
-		if in == b {
-			return false
-		}
-	}
-	return false
 }
